@@ -514,3 +514,103 @@ Definition member_agrees (S : schema) (ds : list sdecl) (px : list pyxml) (m : m
 (* string sets *)
 Definition subset (a b : list string) : bool := forallb (fun x => mem x b) a.
 Definition set_eqb (a b : list string) : bool := subset a b && subset b a.
+
+(* ------------------------------------------------------------------ executable instance (correspondence runs only)
+   F := finite decimals (as Model/GdsExec.v); the order of _get_members is the table order (the theorems hold for
+   every order; the runs compare order-independent observables only); the validator and Cell.setup_nml_cell are
+   oracles filled with what the real code answered on that call. *)
+Definition XF := dec.
+Definition xf_eqb (a b : dec) : bool := dec_eqb (dec_norm a) (dec_norm b).
+Definition x_obj_eqb := obj_eqb XF xf_eqb dec_norm.
+Definition x_members (M : mtables) (c : string) : list mspec := members_of (fun l => l) M c.
+
+Definition exn_code (e : exn) : nat * list string :=
+  match e with
+  | ExNoMember c p => (1, [c; p])
+  | ExAmbiguous l => (2, l)
+  | ExBadHint h l => (3, l)
+  | ExValidation => (4, [])
+  | ExArg k => (5, [k])
+  | ExCtor => (6, [])
+  | ExNoClass => (7, [])
+  | ExKey m => (8, [m])
+  | ExAttr m => (9, [m])
+  end%nat.
+
+Definition warn_code (w : warning) : nat * string :=
+  match w with WOccupied m => (1, m) | WDuplicate m => (2, m) | WDisabled => (3, "") end%nat.
+
+Definition not_disabled (w : warning) : bool := match w with WDisabled => false | _ => true end.
+Definition count_disabled (l : list warning) : nat := length (filter (fun w => negb (not_disabled w)) l).
+
+Fixpoint codes_eqb (a b : list (nat * string)) : bool :=
+  match a, b with
+  | [], [] => true
+  | (n, s) :: r, (m, t) :: q => Nat.eqb n m && String.eqb s t && codes_eqb r q
+  | _, _ => false
+  end.
+
+Definition opt_xobj_eqb (a b : option (obj XF)) : bool :=
+  match a, b with Some x, Some y => x_obj_eqb x y | None, None => true | _, _ => false end.
+
+Record xcall := {
+  xc_child : child_arg XF;
+  xc_hint : option string;
+  xc_force : bool;
+  xc_validate : bool;
+  xc_vchild : bool;                 (* oracle: validate() of the component the factory made *)
+  xc_vparent : bool;                (* oracle: validate() of the parent after the call *)
+  xc_cell : option (obj XF);        (* oracle: what Cell.setup_nml_cell made of the new cell *)
+  xc_parent_after : option (obj XF);(* observed parent after the call; None = member-wise identical to before *)
+  xc_code : nat * list string;      (* observed outcome: 0 returned the child, 20 returned None, else exn_code *)
+  xc_ret : option (obj XF);         (* observed returned component *)
+  xc_warn : list (nat * string);    (* observed warnings.warn calls, in order *)
+  xc_disabled : option nat          (* observed number of "Build time validation is disabled." log records *)
+}.
+
+Record xcase := { xa_enabled : bool; xa_parent : obj XF; xa_calls : list xcall }.
+
+Definition x_add (fixed : bool) (M : mtables) (T : tables) (enabled : bool) (p : obj XF) (c : xcall) : add_out XF :=
+  let pa := match xc_parent_after c with Some q => q | None => p end in
+  add_with XF xf_eqb dec_norm
+           (fun o => if x_obj_eqb o pa then xc_vparent c else xc_vchild c)
+           (fun o => match xc_cell c with Some q => q | None => o end)
+           fixed (x_members M) T enabled p (xc_child c) (xc_hint c) (xc_force c) (xc_validate c).
+
+(* bit 1 parent afterwards, 2 outcome, 4 warnings, 8 log count, 16 returned component *)
+Definition check_call (fixed : bool) (M : mtables) (T : tables) (enabled : bool) (p : obj XF) (c : xcall) : nat :=
+  let r := x_add fixed M T enabled p c in
+  let pa := match xc_parent_after c with Some q => q | None => p end in
+  let b1 := x_obj_eqb (ao_parent XF r) pa in
+  let code := match ao_res XF r with
+              | Ret None => (20%nat, [])
+              | Ret (Some _) => (0%nat, [])
+              | Err e => exn_code e
+              end in
+  let b2 := Nat.eqb (fst code) (fst (xc_code c)) && set_eqb (snd code) (snd (xc_code c)) in
+  let b3 := codes_eqb (map warn_code (filter not_disabled (ao_warn XF r))) (xc_warn c) in
+  let b4 := match xc_disabled c with Some n => Nat.eqb n (count_disabled (ao_warn XF r)) | None => true end in
+  let b5 := match ao_res XF r with
+            | Ret (Some o) => opt_xobj_eqb (Some o) (xc_ret c)
+            | _ => match xc_ret c with None => true | Some _ => false end
+            end in
+  ((if b1 then 0 else 1) + (if b2 then 0 else 2) + (if b3 then 0 else 4) + (if b4 then 0 else 8) + (if b5 then 0 else 16))%nat.
+
+Fixpoint check_calls (fixed : bool) (M : mtables) (T : tables) (enabled : bool) (p : obj XF) (j : nat) (l : list xcall)
+  : list (nat * nat) :=
+  match l with
+  | [] => []
+  | c :: r =>
+    let k := check_call fixed M T enabled p c in
+    let pa := match xc_parent_after c with Some q => q | None => p end in
+    let rest := check_calls fixed M T enabled pa (S j) r in
+    if Nat.eqb k 0 then rest else (j, k) :: rest
+  end.
+
+(* (case index, call index, bits) of every disagreement *)
+Fixpoint add_mismatches (fixed : bool) (M : mtables) (T : tables) (i : nat) (l : list xcase) : list (nat * (nat * nat)) :=
+  match l with
+  | [] => []
+  | a :: r => (map (fun jk => (i, jk)) (check_calls fixed M T (xa_enabled a) (xa_parent a) 0 (xa_calls a))
+               ++ add_mismatches fixed M T (S i) r)%list
+  end.
